@@ -63,8 +63,9 @@ CLAIMS = {
              'Compile time (unit SEMK): conversionCost follows the same table, so both sides rank candidates identically on matching static/dynamic types (written lemma over the two contracts). '
              '(b) destructor order (unit OBJM): the destructor walk of destroyObject visits the whole chain obj->cls, base, ... (class table of up to 8 classes, acyclic), enters the destructor of every class that declares one exactly once, executes its first statement, '
              'derived class before base class (two ghost chain positions), each in its own class context with `this` bound to the object and stamped with that class, one scope deep, and restores context and scope depth (two nested loop contracts). '
-             '(c) dispatch: in the member-call branch of eval, obj.m(...) runs the vtable entry of the receiver\'s DYNAMIC class for the signature found through the static class when that method is virtual, the statically found method otherwise, and super.m(...) runs the method found in the base of the static class (region member_dispatch; class / method / vtable lookups uninterpreted).',
-        note=TB + 'exec / beginScope / endScope / the `this` binding are models with bodies that only record ghost events. NOT covered: construction order (base constructor, field initialisers, body), vtable BUILDING (what the table holds), findMethod\'s candidate collection, static fields, generics, WHEN destroyObject is called '
+             '(c) dispatch: in the member-call branch of eval, obj.m(...) runs the vtable entry of the receiver\'s DYNAMIC class for the signature found through the static class when that method is virtual, the statically found method otherwise, and super.m(...) runs the method found in the base of the static class (region member_dispatch; class / method / vtable lookups uninterpreted). '
+             '(d) construction order: in runConstructorChain the base-constructor chain (for the base class, the same object) runs exactly once and first, then this class\'s field initialisers exactly once, then the constructor body starting after an explicit super(...) statement; a failing phase stops the construction (region ctor_phases: the three phase statements in source order, three loop contracts, events on a ghost clock).',
+        note=TB + 'exec / beginScope / endScope / the `this` binding are models with bodies that only record ghost events. NOT covered: what runs INSIDE the phases (runFieldInitialisers itself, the parameter-to-field copy of `= default` constructors, the choice of the base constructor beyond its loops\' safety), vtable BUILDING (what the table holds), findMethod\'s candidate collection, static fields, generics, WHEN destroyObject is called '
              '(reference counting / cycle collector; observed: a constructor ending in `return this;` leaves a hidden reference in m_returnValue, so `destroy` of that object never runs its destructor), the candidate '
              'collection loops, and the stamping of a reference with its DECLARED class at declaration / parameter binding - observed defect: `A a = new Sub(); k.g(a)` runs g(Sub) although the analyser resolved g(A) (native oracle, label site.binding.*).',
         ref='DESIGN.md §4 C08'),
